@@ -9,6 +9,9 @@
 // reference state are equal. The reference model (model.go) is three maps of JSON fields updated literally
 // as the statement says; validity and the expected reads are obtained differentially by rendering the
 // reference state to a file and loading it from scratch with conf.Load.
+// The search has several roots: the historical base (the reference state rendered as JSON) and the base
+// configurations of bases.go, YAML texts in the shapes a configuration file can have (paths declared with an
+// empty body, {}, null, ...), loaded by the real Core; the latter are expanded first and followed to -basedepth.
 package main
 
 import (
@@ -541,7 +544,8 @@ func main() {
 		"failure = any 4xx status; null and [] are equal in JSON comparisons; the private API port is masked",
 		"alphabet: 4 names x the listed payloads; credentials, nested structures (forward) and explicit nulls are outside the alphabet",
 		"file bases: the reference state of a base is written by hand next to its YAML text; a base whose reads do not equal that state is a harness error, not a verdict (loading is not this property)",
-		"quick tier: the zero-valued edits (0 / false / empty list in a present field) are leaves: applied and judged in every reached state, their successor states are not expanded (thorough: full members)",
+		"quick tier: the zero-valued edits (0 / false / empty list in a present field) and the payloads refused by the decoder are leaves: applied and judged in every reached state, their successor states are not expanded (thorough: full members)",
+		"states are merged on the running configuration as encoded (nil and empty path entries are different states); running configurations are COMPARED with nil = empty for the map of paths and for a path entry (representation, not observable through the API)",
 		"besides the differential expectation, every accepted edit is judged without conf.Load: each field of the reference state must be contained in the corresponding read, every other field of a path read must equal the path defaults read",
 	}
 	if len(outcomes) < 6 {
